@@ -3,6 +3,7 @@ package simrt
 import (
 	"sync"
 	"testing"
+	"time"
 )
 
 func TestPingPong(t *testing.T) {
@@ -439,6 +440,39 @@ func TestWaitGroupModel(t *testing.T) {
 		})
 		if res.Deadlock || res.Budget || len(res.Leaks) > 0 {
 			t.Fatalf("seed %d: %+v", seed, res)
+		}
+	}
+}
+
+// A recursion a hundred thousand frames deep, every level wrapped in a recover-and-panic-again
+// handler (as soy's call evaluation is), must be abortable in reasonable time.
+func deepWrapped(n int) {
+	defer func() {
+		Yield(2)
+		if r := recover(); r != nil {
+			panic(r)
+		}
+	}()
+	Yield(1)
+	deepWrapped(n + 1)
+}
+
+func TestAbortOfDeepRecursion(t *testing.T) {
+	for _, inMain := range []bool{true, false} {
+		t0 := time.Now()
+		res := Run(Config{Budget: 400_000}, func() {
+			if inMain {
+				deepWrapped(0)
+				return
+			}
+			Go(3, func() { deepWrapped(0) })
+			Idle()
+		})
+		if !res.Budget {
+			t.Fatalf("inMain=%v: %+v", inMain, res)
+		}
+		if d := time.Since(t0); d > 20*time.Second {
+			t.Fatalf("inMain=%v: abort took %v", inMain, d)
 		}
 	}
 }
